@@ -118,11 +118,6 @@ Definition opt_str_eqb (a b : option str) :=
    directory scan lists exactly those of them that are bloom files -- plus, possibly, complete
    files whose Close got as far as the rename and then failed at the directory fsync (an injected
    os failure), until Abort or TombstoneFile removes them, as the store documents. *)
-Definition window_files (s : state) : list (str * str) :=
-  flat_map (fun w => match w_lay w with
-                     | LPost => if w_cok w then [] else [(w_base w, w_written w)]
-                     | _ => [] end) (s_ws s).
-
 Definition spec_violated (c : cfg) (s' : state) (ob : obsF) : bool :=
   let spec := spec_files s' in
   let isvalid := fun p : str * str => valid c (snd p) in
